@@ -2,7 +2,19 @@
 from checks import brokerfam
 
 PROP = "C11"
-PINS = {}
+PINS = {
+    # the explicit fuel bound (Broker/FuelProofs.v): the model's own step is total
+    "C11_fuel_suffices": "forall m, MI m -> exists m', settle (fuel_for m) m = Done m'",
+    "C11_fuel_bound": "(3 + size (conns (ms m))) * (work_len (mw m) + state_load (ms m)) <= fuel)%nat -> exists m', settle fuel m = Done m'",
+    "C11_step_total": "reachable s -> legal s i -> exists s' o, step s (i_ev i) (i_fresh i) (i_bserial i) = Done (s', o) /\\ Inv s'",
+    "C11_never_panics": "reachable s -> legal s i -> step s (i_ev i) (i_fresh i) (i_bserial i) <> Panic site",
+    "C11_run_total": "forall h, legal_run init h -> exists s os, run init h = Done (s, os)",
+    # frame theorems (Broker/FuelProofsFrame.v, FuelProofsFrameCalls.v)
+    "C11_channels_of_others_kept": "bystander_ok o1 e -> bystander_ok o2 e -> f ∉ cookies_in_use s -> step s e f b = Done (s', out) -> chans s' !! k = Some ch",
+    "C11_services_of_others_kept": "bystander_ok g e -> f ∉ cookies_in_use s -> step s e f b = Done (s', out) -> owner_of_svc s' k = Some g /\\ exists sv', svcs s' !! k = Some sv' /\\ s_cookie sv' = s_cookie sv /\\ s_obj_cookie sv' = s_obj_cookie sv /\\ s_info sv' = s_info sv",
+    "C11_calls_of_others_kept": "bystander_ok (c_caller cl) e -> bystander_ok g e -> f ∉ cookies_in_use s -> step s e f bs = Done (s', out) -> calls s' !! b = Some cl",
+    "C11_no_panic": "site <> 0 -> step s (i_ev i) (i_fresh i) (i_bserial i) <> Panic site",
+}
 MIXES = ["abuse","all","abuse","all"]
 
 
